@@ -108,7 +108,11 @@ func (e InfraError) Error() string { return "infrastructure: " + e.Msg }
 var theT *testing.T
 
 // Run executes one spec inside its own synctest bubble.
-func Run(spec *Spec) *Out {
+func Run(spec *Spec) *Out { return RunFunc(spec, nil) }
+
+// RunFunc is Run with a custom root function (library-level drivers) instead
+// of the cobra command.
+func RunFunc(spec *Spec, root func()) *Out {
 	out := &Out{}
 	start := time.Now()
 	func() {
@@ -156,6 +160,13 @@ func Run(spec *Spec) *Out {
 				FS: fs, Wait: synctest.Wait, KeepEvents: spec.KeepEvents,
 			}
 			argv := spec.Argv
+			if root != nil {
+				out.Result = simrt.Run(cfg, root)
+				out.FS = fs.Snapshot()
+				out.Trace = fs.Trace
+				out.Fired = fs.Fired
+				return
+			}
 			out.Result = simrt.Run(cfg, func() {
 				c := cmd.CreateCmd("sim")
 				c.SetArgs(argv)
